@@ -42,6 +42,44 @@ Theorem C13_selects_injective : forall eo m mt,
 Proof. exact answers_selects. Qed.
 Print Assumptions C13_selects_injective.
 
+(* ---- rejected registrations leave the collection exactly as it was ----
+   (rejected = group name already taken in the tables so far, or refused by ExtractHandler:
+   unnamed / unexported type, no handler-shaped method) *)
+Theorem C13_rejected_spec : forall pre eo,
+  rejected (build pre) eo = true <->
+  (exists w, owns pre (spec_group eo) w) \/ ~ servable eo.
+Proof. exact rejected_spec. Qed.
+Print Assumptions C13_rejected_spec.
+
+(* one step of Build(): the tables are untouched *)
+Theorem C13_rejected_step_frame : forall cs eo, rejected cs eo = true -> new_service cs eo = cs.
+Proof. exact new_service_rejected. Qed.
+Print Assumptions C13_rejected_step_frame.
+
+(* wherever it stands among the registrations, whatever follows it *)
+Theorem C13_rejected_frame : forall pre eo post,
+  rejected (build pre) eo = true -> build (pre ++ eo :: post) = build (pre ++ post).
+Proof. exact rejected_frame. Qed.
+Print Assumptions C13_rejected_frame.
+
+(* so the tables, and what every route resolves to, depend on the accepted registrations only *)
+Theorem C13_build_accepted : forall es, build es = build (accepted es).
+Proof. exact build_accepted. Qed.
+Print Assumptions C13_build_accepted.
+
+Theorem C13_resolve_accepted : forall es route, resolve es route = resolve (accepted es) route.
+Proof. exact resolve_accepted. Qed.
+Print Assumptions C13_resolve_accepted.
+
+(* history level: a Register that is rejected with respect to what its collection has registered
+   so far changes NO later observation, whatever is registered, built, queried, called or
+   dispatched afterwards *)
+Theorem C13_rejected_registration_leaves_no_trace : forall h1 k e o h2,
+  rejected (build (s_entries (final h1 k))) (e, o) = true ->
+  run (h1 ++ OReg k e o :: h2) = run h1 ++ BUnit :: skipn (length h1) (run (h1 ++ h2)).
+Proof. exact rejected_registration_leaves_no_trace. Qed.
+Print Assumptions C13_rejected_registration_leaves_no_trace.
+
 (* GetArgType is the DECLARED message type of the targeted method (what the payload is decoded into) *)
 Theorem C13_decode_type : forall es route,
   get_arg_type (build es) route = option_map msg_type (resolve es route).
@@ -263,3 +301,12 @@ Proof. vm_compute. reflexivity. Qed.
 
 Example C13_example_monitor : has_f4 ex_hist = false /\ holds ex_hist (run ex_hist).
 Proof. split; vm_compute; reflexivity. Qed.
+
+(* non-vacuity for the rejection frame: an entry with no handler-shaped method asks for "hi"
+   first; the valid entry registered under "hi" after it is served as if it had never been there *)
+Example C13_example_rejected :
+  rejected (build []) (E 1 [90] [ex_bad], ex_opts) = true /\
+  accepted [(E 1 [90] [ex_bad], ex_opts); (ex_entry, ex_opts); (ex_entry, ex_opts)] = [(ex_entry, ex_opts)] /\
+  run [OReg 0 (E 1 [90] [ex_bad]) ex_opts; OReg 0 ex_entry ex_opts; OBuild 0; OHas 0 ex_r_join] =
+  [BUnit; BUnit; BUnit; BBool true].
+Proof. repeat split; vm_compute; reflexivity. Qed.
